@@ -11,9 +11,16 @@ order → back-tracking match → calendar fields): `strptime_ymd` in `Lemmas/Da
 The only fact about the grammar tables that is used is that `"%Y-%m-%d"` is the first date format; it is
 evaluated on the five tables regenerated from /repo.
 
-Times and date-times (fractional seconds, trailing `Z`, zone offsets, leap seconds, the PDS3
-restrictions) are decided by the generator's independent reading of each spelling against the real
-decoders and the model (`vlib/props/c14.py`); their theorems are open.
+**Every clock time round-trips through the PVL / ISIS encoders** (`C14_time_decodes`,
+`C14_time_roundtrip_pvl`): `HH:MM`, `HH:MM:SS` or `HH:MM:SS.ffffff` — whichever `encode_time` chooses for
+the value — is read back with exactly the written hour, minute, second and microsecond, and with the
+dialect's default zone (UTC where the grammar says so, naive otherwise): the date formats all fail on
+it, the time formats are tried in the table's order, `%H:%M` and `%H:%M:%S` leave unconverted data on the
+longer spellings and the right one matches.  `TimeTablesOK` is the fact about the tables this uses.
+
+Trailing `Z`, ODL zone offsets, date-times, leap seconds and the PDS3 restrictions are decided by the
+generator's independent reading of each spelling against the real decoders and the model
+(`vlib/props/c14.py`); their theorems are open.
 -/
 namespace Pvl
 open Py Enc
@@ -44,6 +51,35 @@ theorem C14_date_roundtrip (c : EncCfg) (hg : c.d.g.dateFormats.head? = some fmt
     (h : ValidDate y m d) :
     ∃ text, encodeValue c (.date y m d) = .ok text ∧ decodeDatetime c.d text = .ok (.date y m d) := by
   refine ⟨encodeDate y m d, by simp [encodeValue, encodeSimple], C14_date_decodes c.d hg y m d h⟩
+
+/-- the format tables of the five generated grammars have the shape the time theorems use -/
+theorem timeTables_ok : ∀ g ∈ [Gen.pvl, Gen.odl, Gen.pds, Gen.isis, Gen.omni], TimeTablesOK g = true := by
+  decide
+
+/-- **C14, times read back**: the spelling `encode_time` chooses is decoded to the same clock fields,
+    with the dialect's default zone; by each decoder class (the PDS3 decoder: milliseconds only) -/
+theorem C14_time_decodes (dc : Dec) (hg : TimeTablesOK dc.g = true) (h mi s us : Nat)
+    (hv : ValidTime h mi s us) (hp : dc.kind = .pds → us % 1000 = 0) :
+    decodeDatetime dc (encodeTimeBase h mi s us) = .ok (.time h mi s us (defaultTz dc.g)) := by
+  have hb := decodeDatetimeBase_time dc.g hg h mi s us hv
+  unfold decodeDatetime
+  cases hk : dc.kind
+  · simp [hb]
+  · simp [hb, decodeDatetimeOdl]
+  · have := hp hk
+    simp [hb, this]
+  · simp [hb, decodeDatetimeOdl]
+
+/-- **C14, times round-trip through the PVL and ISIS encoders** (which write no zone designator and refuse
+    any zone but UTC): the text reads back, with the encoder's own decoder, as the same clock time in the
+    dialect's default zone -/
+theorem C14_time_roundtrip_pvl (c : EncCfg) (hk : c.kind = .pvl ∨ c.kind = .isis)
+    (hg : TimeTablesOK c.d.g = true) (h mi s us : Nat) (hv : ValidTime h mi s us)
+    (hp : c.d.kind = .pds → us % 1000 = 0) (tz : Option Int) (htz : tz = none ∨ tz = some 0) :
+    ∃ text, encodeValue c (.time h mi s us tz) = .ok text ∧
+      decodeDatetime c.d text = .ok (.time h mi s us (defaultTz c.d.g)) := by
+  refine ⟨encodeTimeBase h mi s us, ?_, C14_time_decodes c.d hg h mi s us hv hp⟩
+  rcases hk with hk | hk <;> rcases htz with rfl | rfl <;> simp [encodeValue, encodeSimple, encodeTime, hk]
 
 /-- leap day: 29 February exists exactly in leap years (non-vacuity of `ValidDate` at its edge) -/
 example : ValidDate 2000 2 29 ∧ ¬ ValidDate 1900 2 29 ∧ ValidDate 1 1 1 ∧ ValidDate 9999 12 31 := by
